@@ -79,6 +79,9 @@ type Host struct {
 	Vars  map[string]Value // initial storer contents
 	// Pending: commands that are started (logged) and never complete.
 	Pending map[string]bool
+	// Deferred: commands that are started (logged), answer one poll with "waiting", and are then
+	// completed by the host (true: with an error).
+	Deferred map[string]bool
 }
 
 // Checkpoint is the state captured at node entry (C07).
@@ -329,6 +332,18 @@ func (m *Machine) exec(s *Stmt, k func() *Obs) *Obs {
 			var w *Obs
 			w = &Obs{K: OWait, Node: m.Cur}
 			w.next = func(int) *Obs { return w }
+			return w
+		}
+		if fails, ok := m.H.Deferred[name]; ok {
+			m.Log = append(m.Log, "cmd:"+name+"("+ArgsString(args)+")")
+			m.sinceYield = 0
+			w := &Obs{K: OWait, Node: m.Cur}
+			w.next = func(int) *Obs {
+				if fails {
+					return m.errObs(k)
+				}
+				return k()
+			}
 			return w
 		}
 		c := m.H.Cmds[name]
